@@ -42,7 +42,7 @@ var textPool = []string{"A", " b ", "\n", "\n  ", "<p>", "</p> <b>", "ü€", "x
 
 var allConstructs = []string{"text", "var", "y", "vsim", "if", "ifequal", "ifnotequal", "for", "with", "set", "macro", "import",
 	"include", "lazyinclude", "cycle", "ifchanged", "filtertag", "spaceless", "autoescape", "firstof", "widthratio",
-	"templatetag", "lorem", "now", "comment", "verbatim", "ssi", "ssiplain", "failexpr", "poly", "lazyvar", "big", "recmacro", "listlit", "ctxfunc", "hiddenrandom", "lookup", "ctxmut", "inlong", "capadd"}
+	"templatetag", "lorem", "now", "comment", "verbatim", "ssi", "ssiplain", "failexpr", "poly", "lazyvar", "big", "recmacro", "listlit", "ctxfunc", "hiddenrandom", "lookup", "ctxmut", "inlong", "capadd", "wsctl"}
 
 // filters with the argument forms the generator writes for them
 var filterForms = map[string][]string{
@@ -218,7 +218,8 @@ func (p *progGen) node(b *strings.Builder, depth int) {
 	case "text":
 		b.WriteString(p.pick(textPool))
 	case "var":
-		fmt.Fprintf(b, "{{ %s }}", p.outExpr())
+		// (one in three with whitespace control on one or both sides)
+		fmt.Fprintf(b, p.pick([]string{"{{ %s }}", "{{ %s }}", "{{ %s }}", "{{ %s }}", "{{- %s }}", "{{ %s -}}"}), p.outExpr())
 	case "y":
 		switch p.g.Draw(4) {
 		case 0:
@@ -546,6 +547,24 @@ func (p *progGen) node(b *strings.Builder, depth int) {
 		} else {
 			v := p.id("wr")
 			fmt.Fprintf(b, "{%% widthratio n2 10 50 as %s %%}{{ %s }}", v, v)
+		}
+	case "wsctl":
+		// literal text between a block tag and a whitespace-control marker: what the marker trims
+		// and what TrimBlocks/LStripBlocks remove meet in one piece of text
+		t := p.pick(textPool) + p.pick([]string{"", "w", " ", "\t "})
+		switch p.g.Draw(4) {
+		case 0:
+			p.use("if")
+			fmt.Fprintf(b, "{%% if n1 -%%}%s{%% endif %%}", t)
+		case 1:
+			p.use("if")
+			fmt.Fprintf(b, "{%% if n1 %%}%s{{- s1 }}{%% endif %%}", t)
+		case 2:
+			p.use("with")
+			fmt.Fprintf(b, "{%% with q=1 %%}%s{%%- endwith %%}", t)
+		default:
+			p.use("if")
+			fmt.Fprintf(b, "{{ n1 -}}%s{%% if b1 %%}%s{%% endif -%%}%s", t, p.pick(textPool), p.pick(textPool))
 		}
 	case "templatetag":
 		p.use("templatetag")
